@@ -430,12 +430,22 @@ func mgName(i int, sig mgSig) string {
 
 func (g *mgGen) vars(typ string, assignable bool) []mgVar {
 	var out []mgVar
-	for _, sc := range g.scopes {
-		for _, v := range sc {
+	seen := map[int]bool{} // a name declared again in an inner scope hides the outer one, whatever its type
+	for i := len(g.scopes) - 1; i >= 0; i-- {
+		sc := g.scopes[i]
+		for j := len(sc) - 1; j >= 0; j-- {
+			v := sc[j]
+			if seen[v.id] {
+				continue
+			}
+			seen[v.id] = true
 			if v.typ == typ && (!assignable || !v.ro) {
 				out = append(out, v)
 			}
 		}
+	}
+	for i, j := 0, len(out)-1; i < j; i, j = i+1, j-1 {
+		out[i], out[j] = out[j], out[i]
 	}
 	return out
 }
@@ -848,6 +858,11 @@ func (g *mgGen) stmt(budget *int) []*mgStmt {
 		}
 		return nil
 	default:
+		if g.swTotal < 2 && depth <= 4 && g.r.chance(45) {
+			if ss := g.shadowStmts(); ss != nil {
+				return ss
+			}
+		}
 		if g.inLoop > 0 && g.swTotal < 3 && g.r.chance(40) {
 			return []*mgStmt{g.switchStmt(budget)}
 		}
@@ -857,6 +872,111 @@ func (g *mgGen) stmt(budget *int) []*mgStmt {
 		}
 		return []*mgStmt{{K: "asg", X: vs[g.r.intn(len(vs))].id, E: g.genIntFit(3)}}
 	}
+}
+
+
+// shadowStmts: block scoping of names, on purpose. A name of an enclosing scope (parameter or local) is declared
+// again with := inside a switch clause / an if body / as the variable of a for statement and in a block of its
+// body, with the same or another type; sibling blocks that come later in the text, the statements after the
+// block and the next iterations of the surrounding loop use the name meaning the OUTER variable (reads, and a
+// write that has to survive). A code generator that keeps one name table for all clauses of a switch (or all
+// bodies of an if chain), or closes the scope of a for statement before its post statement, gets these wrong.
+func (g *mgGen) shadowStmts() []*mgStmt {
+	ints := g.vars("int", false)
+	if len(ints) == 0 {
+		return nil
+	}
+	x := ints[g.r.intn(len(ints))]
+	n := int64(3 + g.r.intn(3))
+	if g.cost+100*float64(n)*g.mult > mgCostBudget {
+		return nil
+	}
+	g.cost += 100 * float64(n) * g.mult
+	var out []*mgStmt
+	// the accumulator that makes everything observable
+	var acc mgVar
+	found := false
+	for _, a := range g.vars("int", true) {
+		if a.id != x.id {
+			acc, found = a, true
+		}
+	}
+	if !found {
+		acc = g.declare("int", false)
+		out = append(out, &mgStmt{K: "decl", X: acc.id, E: g.genIntFit(1)})
+		g.bind(acc)
+	}
+	X, A := mgVarE(x.id), mgVarE(acc.id)
+	addAcc := func(e *mgExpr) *mgStmt {
+		return &mgStmt{K: "asg", X: acc.id, E: g.mkBin("Mod", g.mkBin("Add", g.mkBin("Mul", A, mgLit(3)), e), mgLit(c14M))}
+	}
+	// the inner declaration of the same name and a use of it: same type, or bool
+	inner := func(rhs *mgExpr) []*mgStmt {
+		if g.r.chance(30) {
+			g.feat["shadow-other-type"]++
+			return []*mgStmt{{K: "decl", X: x.id, E: g.mkBin("Lt", rhs, mgLit(int64(g.r.intn(9))))},
+				{K: "if", E: X, S1: &mgStmt{L: []*mgStmt{addAcc(mgLit(int64(1 + g.r.intn(40))))}}}}
+		}
+		return []*mgStmt{{K: "decl", X: x.id, E: g.mkBin("Mod", g.mkBin("Add", rhs, mgLit(int64(1+g.r.intn(90)))), mgLit(c14M))}, addAcc(X)}
+	}
+	// what a later sibling does with the name: read the outer variable, or write it
+	outerUse := func(i *mgExpr) []*mgStmt {
+		if !x.ro && g.r.bool() {
+			g.feat["shadow-outer-write"]++
+			return []*mgStmt{{K: "asg", X: x.id, E: g.mkBin("Mod", g.mkBin("Add", g.mkBin("Add", X, i), mgLit(int64(1+g.r.intn(30)))), mgLit(c14M))}}
+		}
+		return []*mgStmt{addAcc(X)}
+	}
+	i := g.declare("int", true)
+	I := mgVarE(i.id)
+	loop := func(body []*mgStmt) *mgStmt {
+		return &mgStmt{K: "for", S1: &mgStmt{K: "decl", X: i.id, E: mgLit(0)}, E: g.mkBin("Lt", I, mgLit(n)), S2: &mgStmt{K: "inc", X: i.id}, S3: &mgStmt{L: body}}
+	}
+	switch g.r.intn(4) {
+	case 0, 1: // switch clauses
+		g.feat["shadow-switch"]++
+		m := int64(3 + g.r.intn(2))
+		sw := &mgStmt{K: "switch", E: g.mkBin("Mod", g.mkBin("Add", I, mgLit(int64(g.r.intn(3)))), mgLit(m))}
+		pos := g.r.intn(2) // the clause that declares: first or second
+		for c := 0; c < 3; c++ {
+			cl := mgClause{Num: true, Es: []*mgExpr{mgLit(int64(c))}}
+			if c == 1 && g.r.bool() {
+				cl.Es = append(cl.Es, mgLit(int64(3+g.r.intn(3))))
+			}
+			switch {
+			case c == pos:
+				cl.Body = inner(g.mkBin("Mul", I, mgLit(int64(2+g.r.intn(5)))))
+			case c < pos:
+				cl.Body = []*mgStmt{addAcc(X)}
+			default:
+				cl.Body = outerUse(I)
+			}
+			sw.Clauses = append(sw.Clauses, cl)
+		}
+		if g.r.chance(70) {
+			sw.HasDefault = true
+			sw.Default = append(outerUse(I), addAcc(mgLit(7)))
+		}
+		out = append(out, loop([]*mgStmt{sw, addAcc(X)}))
+	case 2: // if / else if / else
+		g.feat["shadow-if"]++
+		c0 := g.mkBin("Eq", g.mkBin("Mod", I, mgLit(3)), mgLit(int64(g.r.intn(3))))
+		c1 := g.mkBin("Eq", g.mkBin("Mod", I, mgLit(2)), mgLit(int64(g.r.intn(2))))
+		chain := &mgStmt{K: "ifelse", E: c0, S1: &mgStmt{L: inner(g.mkBin("Add", I, X))},
+			S2: &mgStmt{K: "ifelse", E: c1, S1: &mgStmt{L: outerUse(I)}, S2: &mgStmt{L: append(outerUse(I), addAcc(mgLit(5)))}}}
+		out = append(out, loop([]*mgStmt{chain, addAcc(X)}))
+	default: // the variable of a for statement, and a block inside its body
+		g.feat["shadow-for"]++
+		body := []*mgStmt{addAcc(X), {K: "block", L: inner(g.mkBin("Mul", X, mgLit(2)))}, addAcc(X)}
+		f := &mgStmt{K: "for", S1: &mgStmt{K: "decl", X: x.id, E: mgLit(int64(g.r.intn(3)))}, E: g.mkBin("Lt", X, mgLit(n)),
+			S2: &mgStmt{K: "inc", X: x.id}, S3: &mgStmt{L: body}}
+		if g.r.bool() {
+			f.S2 = &mgStmt{K: "opasg", X: x.id, Op: "Add", E: mgLit(2)}
+		}
+		out = append(out, f)
+	}
+	out = append(out, addAcc(X))
+	return out
 }
 
 // switchStmt: a switch on an integer tag or without tag, default clause last or absent, no fallthrough (the
@@ -1541,7 +1661,7 @@ func c14FragGenerate(co *caseOut, cf *commonFlags, r *rng, work string) error {
 		p, sigs := mgGenProg(r, feat)
 		in := c14FragInput{Pkg: fmt.Sprintf("m%d", i), Coq: p.coq(), Tag: fmt.Sprintf("funcs%d", len(p.Funcs))}
 		in.Src = p.goSrc(in.Pkg)
-		for _, k := range []string{"for", "while", "call", "and", "or", "recursion", "multi-call", "switch"} {
+		for _, k := range []string{"for", "while", "call", "and", "or", "recursion", "multi-call", "switch", "shadow-switch", "shadow-if", "shadow-for"} {
 			if feat[k] > before[k] {
 				in.Nont = true
 			}
